@@ -828,3 +828,29 @@ HX void hx_pa_subgroup_dup(uint64_t mode, uint64_t) {
    vs_assert(rc != 2, "only std::exception");
    vs_assert((rc == 1) == (mode <= 6), "a key that is taken by another argument of the handler (plain or sub-group) is refused, other keys are accepted");
 }
+
+// C08: a key that opens a sub-group in one member handler cannot be defined again in another member handler (and the other way round)
+// mode: 0 "i" / 1 "o,output" / 2 "output" as normal argument in the second handler; 3: sub-group key "q" after the normal "q,quiet" of the
+// first handler; 4: distinct keys (accepted); bit 3 (8): the second handler owns a sub-group argument of its own
+HX void hx_pa_group_subkey(uint64_t mode, uint64_t) {
+   int x = 0, y = 0, z = 0, w = 0; bool q = false;
+   Handler sub_in(0), sub_out(0), sub_extra(0);
+   sub_in.addArgument("f,file", DEST_VAR(x), "file"); sub_out.addArgument("f,file", DEST_VAR(y), "file"); sub_extra.addArgument("f,file", DEST_VAR(w), "file");
+   int rc = guarded([&] {
+      auto h1 = Groups::instance().getArgHandler("first", 0);
+      auto h2 = Groups::instance().getArgHandler("second", 0);
+      h1->addArgument("i", sub_in, "input arguments"); h1->addArgument("o,output", sub_out, "output arguments"); h1->addArgument("q,quiet", DEST_VAR(q), "quiet");
+      if (mode & 8) h2->addArgument("e,extra", sub_extra, "extra arguments");
+      switch (mode & 7) {
+      case 0: h2->addArgument("i", DEST_VAR(z), "z"); break;
+      case 1: h2->addArgument("o,output", DEST_VAR(z), "z"); break;
+      case 2: h2->addArgument("output", DEST_VAR(z), "z"); break;
+      case 3: h2->addArgument("q", sub_extra, "sub-group with the key of a normal argument of the other handler"); break;
+      default: h2->addArgument("z,zeta", DEST_VAR(z), "z"); break;
+      }
+      char a0[] = "prog"; char* argv[] = {a0, nullptr};
+      Groups::instance().evalArguments(1, argv);
+   });
+   vs_assert(rc != 2, "only std::exception");
+   vs_assert((rc == 1) == ((mode & 7) <= 3), "a key (normal or sub-group) defined in one member handler is refused in another member handler, other keys are accepted");
+}
